@@ -342,7 +342,26 @@ type Proc struct {
 	crashAt   int
 	crashLand bool
 	crashed   bool
+	failAt    int  // transient failure at the n-th mutating call (0: none)
+	failLand  bool // the failing call takes effect although it reports an error
+	failed    bool
 	Log       []string // mutating calls seen: "store:op:key"
+}
+
+// FailAt plans one transient failure: the n-th mutating call of the process returns ErrInjected;
+// with land=true its effect takes place nevertheless (the acknowledgement was lost). Later calls succeed.
+func (p *Proc) FailAt(n int, land bool) {
+	p.mu.Lock()
+	defer p.mu.Unlock()
+	p.failAt, p.failLand, p.failed, p.mutCount = n, land, false, 0
+	p.Log = nil
+}
+
+// Failed reports whether the planned transient failure was delivered
+func (p *Proc) Failed() bool {
+	p.mu.Lock()
+	defer p.mu.Unlock()
+	return p.failed
 }
 
 // NewProc creates a process
@@ -597,6 +616,13 @@ func (s *Store) enter(c *Call) (land bool, crashAfter bool, err error) {
 					return true, true, nil
 				}
 				return false, false, ErrCrashed
+			}
+			if p.failAt > 0 && p.mutCount == p.failAt && !p.failed {
+				p.failed = true
+				if p.failLand {
+					return true, true, nil // lands, then reports an error (see callers: crashAfter path)
+				}
+				return false, false, ErrInjected
 			}
 		}
 	}
